@@ -16,8 +16,15 @@
 //	R4 the denom is a realm denomination and the op is one in which its issuing realm burns it
 //
 // plus: a failed tx moves nothing but the signer's fee; a realm spending through an OriginSend banker never ends the
-// tx with less than it had before (it can only pass on what came with the call); the total supply of a realm
-// denomination changes only in ops where the issuing realm mints/burns; ugnot supply never changes.
+// tx with less OF ANY DENOMINATION than it had before (it can only pass on what came with the call); the total supply
+// of a realm denomination changes only in ops where the issuing realm mints/burns; ugnot supply never changes.
+//
+// Three exhaustive single-transaction families run first, each member from a snapshot of a fixed base state, with the
+// same oracle (files realmval.go, forge.go, originx.go): generated attacker programs that forge / wrap / reassign
+// REALM VALUES before handing them to NewBanker, Sub or cross(); hand-built messages with forged identity fields
+// (Package.Path, Caller, Creator, FromAddress, signature slots); the multi-denomination origin-send matrix.
+// Findings of a family are reported under one key per (what was lost by whom, root-cause class) with every failing
+// member listed in the detail, and are confirmed on a fresh chain with one tx per block and real commits.
 package main
 
 import (
@@ -122,6 +129,13 @@ func OriginSpendTwice(cur realm, to address, amt int64) {
 	b2.SendCoins(cur.Address(), to, coins(amt))
 }
 
+var keptOrigin banker.Banker
+
+func KeepOrigin(cur realm) { keptOrigin = banker.NewBanker(banker.BankerTypeOriginSend, cur) }
+func UseKeptOrigin(cur realm, to address, denom string, amt int64) {
+	keptOrigin.SendCoins(cur.Address(), to, chain.NewCoins(chain.NewCoin(denom, amt)))
+}
+
 func Keep(cur realm) { kept = banker.NewBanker(banker.BankerTypeRealmSend, cur) }
 func UseKept(cur realm, from, to address, amt int64) { kept.SendCoins(from, to, coins(amt)) }
 `
@@ -151,6 +165,26 @@ func CallHook(cur realm, mode string) { att.Hook(cross(cur), mode) }
 // "pass on what came with the call"
 func SpendOrigin(cur realm, to address, amt int64) {
 	banker.NewBanker(banker.BankerTypeOriginSend, cur).SendCoins(cur.Address(), to, coins(amt))
+}
+
+// one or two SendCoins through ONE OriginSend banker; each SendCoins carries one or two coins built as a raw
+// (unsorted, possibly repeated-denom) chain.Coins. An amount of 0 means "no such coin".
+func SpendOriginSeq(cur realm, to address, d1 string, a1 int64, d2 string, a2 int64, d3 string, a3 int64, d4 string, a4 int64) {
+	b := banker.NewBanker(banker.BankerTypeOriginSend, cur)
+	send := func(da string, aa int64, db string, ab int64) {
+		var cs chain.Coins
+		if aa != 0 {
+			cs = append(cs, chain.Coin{da, aa})
+		}
+		if ab != 0 {
+			cs = append(cs, chain.Coin{db, ab})
+		}
+		if len(cs) > 0 {
+			b.SendCoins(cur.Address(), to, cs)
+		}
+	}
+	send(d1, a1, d2, a2)
+	send(d3, a3, d4, a4)
 }
 
 func Mint(cur realm, to address, amt int64) {
@@ -201,6 +235,8 @@ var (
 	_         = addrR
 	denomV    = "/" + pathV + ":coin"
 	denomE    = "/" + pathE + ":coin"
+	// a second plain denomination (split-tier, like an IBC coin): every user and realm vv hold some at genesis
+	denomX = "atom"
 )
 
 func ug(n int64) std.Coins { return std.Coins{std.NewCoin("ugnot", n)} }
@@ -209,8 +245,14 @@ func gtx(msg std.Msg) std.Tx {
 	return std.Tx{Msgs: []std.Msg{msg}, Fee: std.NewFee(100_000_000, std.NewCoin("ugnot", fee)), Signatures: []std.Signature{{}}}
 }
 
-func newChain() *chainx.Chain {
-	s := chainx.Spec{Keys: keys, Fund: 1_000_000_000_000}
+// newChain: genesis with the three base realms. withRV additionally deploys (in block 1, one tx each, failures
+// tolerated and recorded) the generated attacker packages of realmval.go and the caller realm vh generated from the
+// ones that deployed.
+func newChain(withRV bool) *chainx.Chain {
+	s := chainx.Spec{Keys: keys, Fund: 1_000_000_000_000, ExtraCoins: std.Coins{std.NewCoin(denomX, 1_000_000_000)}}
+	if withRV {
+		s.MaxGas = -1
+	}
 	s.GenesisTxs = []std.Tx{
 		gtx(chainx.AddPkg(A.Addr, pathE, map[string]string{"e.gno": realmE})),
 		gtx(chainx.AddPkg(B.Addr, pathV, map[string]string{"v.gno": realmV})),
@@ -218,9 +260,12 @@ func newChain() *chainx.Chain {
 	}
 	s.Mutate = func(gs *gnoland.GnoGenesisState) {
 		gs.Balances = append(gs.Balances,
-			gnoland.Balance{Address: addrV, Amount: ug(5_000_000)},
+			gnoland.Balance{Address: addrV, Amount: std.Coins{std.NewCoin(denomX, 3_000_000), std.NewCoin("ugnot", 5_000_000)}},
 			gnoland.Balance{Address: addrE, Amount: ug(1_000_000)},
 			gnoland.Balance{Address: addrVault, Amount: ug(2_000_000)})
+		if withRV {
+			gs.Balances = append(gs.Balances, rvBalances()...)
+		}
 	}
 	c, err := chainx.New(memdb.NewMemDB(), s)
 	if err != nil {
@@ -230,6 +275,9 @@ func newChain() *chainx.Chain {
 		if tr.Error != nil {
 			r.HarnessError("genesis tx %d failed: %v %s", i, tr.Error, tr.Log)
 		}
+	}
+	if withRV {
+		rvDeploy(c)
 	}
 	return c
 }
@@ -256,6 +304,28 @@ type opDef struct {
 	// realms that spend through an OriginSend banker in this op: must not end the tx poorer
 	origin []crypto.Address
 	attack bool // the rules require the coin movement attempted here to be refused
+	// mktx builds (and signs, possibly with the wrong key) the tx itself: hand-built messages with forged identity
+	// fields. signer stays the key that really produced the signatures.
+	mktx func(c *chainx.Chain) std.Tx
+	// self: realm addresses whose OWN code is what runs in this op (generated attacker packages): debits of these are
+	// the attacker spending its own coins; selfDenoms: denominations those realms issue themselves
+	self       []crypto.Address
+	selfDenoms []string
+	fullScan   bool                       // observe every balance key of the store after this op
+	key        string                     // stable key of the op in violation keys (default: name)
+	after      func(failed, finding bool) // family bookkeeping (outcome classes)
+	group      string                     // findings of ops of one group are reported under one key (minimal member + list)
+	ord        int                        // position in its family (the minimal member of a group is the first one)
+}
+
+func (o *opDef) id() string {
+	if o.group != "" {
+		return o.group
+	}
+	if o.key != "" {
+		return o.key
+	}
+	return o.name
 }
 
 func call(k *chainx.Key, send int64, path, fn string, args ...string) func() []std.Msg {
@@ -382,10 +452,21 @@ var (
 // known: every address that holds coins at genesis or is named by a menu entry. Balances are read with direct
 // key reads (iterators on the memdb-backed store cost O(whole DB)); conservation of the ugnot total over this set
 // proves that no address outside it is involved, and ops that try to mint additionally get a full scan.
-var known []crypto.Address
+// knownAll / splitAll: the same for chains that carry the generated attacker packages (realmval.go).
+var (
+	known, knownAll     []crypto.Address
+	splitCore, splitAll []string
+	rvChains            sync.Map // *chainx.Chain -> true
+)
+
+func isRV(c *chainx.Chain) bool { _, ok := rvChains.Load(c); return ok }
 
 func observe(c *chainx.Chain, fullScan bool) obs {
 	o := obs{bal: map[crypto.Address]std.Coins{}}
+	set, split := known, splitCore
+	if isRV(c) {
+		set, split = knownAll, splitAll
+	}
 	if fullScan {
 		acc := c.Items("main", "/a/")
 		for k, v := range c.Items("main", "/b/") {
@@ -398,8 +479,8 @@ func observe(c *chainx.Chain, fullScan bool) obs {
 			}
 		}
 	} else {
-		for _, a := range known {
-			if cs := c.BalanceOf(a, denomV, denomE); len(cs) > 0 {
+		for _, a := range set {
+			if cs := c.BalanceOf(a, split...); len(cs) > 0 {
 				o.bal[a] = cs
 			}
 		}
@@ -496,12 +577,19 @@ func firstLine(s string) string {
 	return s
 }
 
-func step(c *chainx.Chain, commit bool, prev obs, oi int) (obs, bool, *finding) {
-	op := menu[oi]
-	msgs := op.msgs()
-	opt := op.opt
-	opt.GasWanted = 100_000_000
-	tx := c.MakeTx(keys, msgs, opt)
+// knownDenoms: denominations whose total supply is tracked (everything else that appears is a finding)
+var knownDenoms = map[string]bool{}
+
+func step(c *chainx.Chain, commit bool, prev obs, op *opDef) (obs, bool, *finding) {
+	var tx std.Tx
+	if op.mktx != nil {
+		tx = op.mktx(c)
+	} else {
+		opt := op.opt
+		opt.GasWanted = 100_000_000
+		tx = c.MakeTx(keys, op.msgs(), opt)
+	}
+	msgs := tx.Msgs
 	if commit {
 		c.BeginBlock()
 	}
@@ -515,7 +603,9 @@ func step(c *chainx.Chain, commit bool, prev obs, oi int) (obs, bool, *finding) 
 	}
 	nTx.Add(1)
 	r.Eval()
-	full := strings.Contains(strings.ToLower(op.name), "mint")
+	// committed steps (replays, confirmations) always scan every balance key: an earlier step of the same chain may
+	// have left coins of a denomination outside the listed ones
+	full := commit || op.fullScan || strings.Contains(strings.ToLower(op.name), "mint")
 	cur := observe(c, full)
 	if _, loaded := stateSet.LoadOrStore(cur.key(), true); !loaded {
 		nStates.Add(1)
@@ -569,6 +659,22 @@ func step(c *chainx.Chain, commit bool, prev obs, oi int) (obs, bool, *finding) 
 	}
 	signer := op.signer.Addr
 	named := msgCoins(msgs, signer)
+	isSelf := func(a crypto.Address) bool {
+		for _, s := range op.self {
+			if s == a {
+				return true
+			}
+		}
+		return false
+	}
+	isSelfDenom := func(d string) bool {
+		for _, s := range op.selfDenoms {
+			if s == d {
+				return true
+			}
+		}
+		return false
+	}
 	for _, d := range decs {
 		// R1 signer
 		if d.a == signer && !op.opt.NoSign {
@@ -596,7 +702,7 @@ func step(c *chainx.Chain, commit bool, prev obs, oi int) (obs, bool, *finding) 
 			return cur, failed, &finding{"failed-tx-moved-coins-of:" + who(d.a), det(map[string]any{"address": who(d.a), "denom": d.denom, "decrease": d.d})}
 		}
 		// R2 / R4 declared by the op
-		okd := false
+		okd := isSelf(d.a)
 		for _, al := range op.allow {
 			if al.addr == d.a && al.denom == d.denom && d.d <= al.max {
 				okd = true
@@ -619,46 +725,72 @@ func step(c *chainx.Chain, commit bool, prev obs, oi int) (obs, bool, *finding) 
 	}
 	// supply
 	s0, s1 := supply(prev), supply(cur)
-	for denom := range map[string]bool{"ugnot": true, denomV: true, denomE: true} {
+	var denoms []string
+	for d := range knownDenoms {
+		denoms = append(denoms, d)
+	}
+	for d := range s1 {
+		if !knownDenoms[d] {
+			denoms = append(denoms, d)
+		}
+	}
+	sort.Strings(denoms)
+	for _, denom := range denoms {
+		if isSelfDenom(denom) {
+			continue
+		}
+		if !knownDenoms[denom] {
+			if s1[denom] == s0[denom] {
+				continue // left behind by an earlier step of this chain
+			}
+			return cur, failed, &finding{"unknown-denom-appeared", det(map[string]any{"denom": denom, "before": s0[denom], "after": s1[denom]})}
+		}
 		want := s0[denom]
 		if !failed {
 			want += op.mint[denom]
 		}
 		if s1[denom] != want {
+			if denom == "ugnot" {
+				r.HarnessError("ugnot total over the known address set changed in %s: an address outside the set is involved", op.name)
+			}
 			return cur, failed, &finding{"supply-changed-without-issuer:" + denom, det(map[string]any{"denom": denom, "before": s0[denom], "after": s1[denom], "declared_by_issuer": op.mint[denom]})}
 		}
 	}
-	if s1["ugnot"] != s0["ugnot"] {
-		r.HarnessError("ugnot total over the known address set changed in %s: an address outside the set is involved", op.name)
-	}
-	for denom := range s1 {
-		if denom != "ugnot" && denom != denomV && denom != denomE {
-			return cur, failed, &finding{"unknown-denom-appeared", det(map[string]any{"denom": denom})}
-		}
-	}
-	// origin-send rule
+	// origin-send rule: in every denomination
 	for _, a := range op.origin {
-		if before, now := chainx.Amount(prev.bal[a], "ugnot"), chainx.Amount(cur.bal[a], "ugnot"); now < before {
-			return cur, failed, &finding{"origin-send-banker-spent-more-than-came-with-the-call:" + who(a), det(map[string]any{"before": before, "after": now})}
+		for _, co := range prev.bal[a] {
+			if now := chainx.Amount(cur.bal[a], co.Denom); now < co.Amount {
+				return cur, failed, &finding{"origin-send-banker-spent-more-than-came-with-the-call:" + who(a), det(map[string]any{"denom": co.Denom, "before": co.Amount, "after": now})}
+			}
 		}
 	}
 	return cur, failed, nil
 }
 
-func hname(h []int) string {
+type hist []*opDef
+
+func (h hist) String() string {
 	var n []string
-	for _, i := range h {
-		n = append(n, menu[i].name)
+	for _, o := range h {
+		n = append(n, o.name)
 	}
 	return strings.Join(n, " ; ")
 }
 
-func replay(h []int) (int, *finding) {
-	c := newChain()
+func mhist(idx []int) hist {
+	var h hist
+	for _, i := range idx {
+		h = append(h, &menu[i])
+	}
+	return h
+}
+
+func replay(h hist, withRV bool) (int, *finding) {
+	c := newChain(withRV)
 	prev := observe(c, true)
-	for i, oi := range h {
+	for i, op := range h {
 		var f *finding
-		prev, _, f = step(c, true, prev, oi)
+		prev, _, f = step(c, true, prev, op)
 		if f != nil {
 			return i, f
 		}
@@ -666,34 +798,80 @@ func replay(h []int) (int, *finding) {
 	return len(h), nil
 }
 
-func report(h []int, at int, f *finding, mode string) {
-	f.detail["history"] = hname(h[:at+1])
+func report(h hist, at int, f *finding, mode string, others []string) {
+	f.detail["history"] = h[:at+1].String()
 	f.detail["found_by"] = mode
-	r.Violation(f.key+" @ "+menu[h[at]].name, f.detail)
+	if len(others) > 1 {
+		f.detail["all_failing_inputs_under_this_key"] = others
+	}
+	r.Violation(f.key+" @ "+h[at].id(), f.detail)
 }
 
 type suspect struct {
-	h   []int
-	key string
+	h    hist
+	key  string
+	rv   bool
+	rank int // reporting order within a phase (smaller first)
+	ord  int
 }
 
 var suspects sync.Map
 
-func dfs(c *chainx.Chain, h []int, prev obs, depth int) {
+func addSuspect(h hist, f *finding, rv bool, rank int) {
+	h2 := append(hist{}, h...)
+	suspects.Store(h2.String(), suspect{h2, f.key + " @ " + h2[len(h2)-1].id(), rv, rank, h2[len(h2)-1].ord})
+}
+
+func dfs(c *chainx.Chain, h hist, prev obs, depth int) {
 	if len(h) == depth || r.Expired() {
 		return
 	}
 	for oi := range menu {
 		pop := c.Push()
-		cur, _, f := step(c, false, prev, oi)
-		h2 := append(append([]int{}, h...), oi)
+		cur, _, f := step(c, false, prev, &menu[oi])
+		h2 := append(append(hist{}, h...), &menu[oi])
 		if f != nil {
-			suspects.Store(fmt.Sprint(h2), suspect{h2, f.key + menu[oi].name})
+			addSuspect(h2, f, false, 1000)
 		} else {
 			dfs(c, h2, cur, depth)
 		}
 		pop()
 	}
+}
+
+// flat: every op of ops after each of the given prefixes (histories of base ops), each on a snapshot of ONE chain
+func flat(c *chainx.Chain, prefixes []hist, ops []*opDef, rank int) (done int) {
+	for _, pre := range prefixes {
+		popPre := c.Push()
+		prev := observe(c, false)
+		okPre := true
+		for _, op := range pre {
+			var f *finding
+			prev, _, f = step(c, false, prev, op)
+			if f != nil {
+				addSuspect(pre, f, isRV(c), rank)
+				okPre = false
+				break
+			}
+		}
+		for _, op := range ops {
+			if !okPre || r.Expired() {
+				break
+			}
+			pop := c.Push()
+			_, failed, f := step(c, false, prev, op)
+			if f != nil {
+				addSuspect(append(append(hist{}, pre...), op), f, isRV(c), rank)
+			}
+			if op.after != nil {
+				op.after(failed, f != nil)
+			}
+			pop()
+			done++
+		}
+		popPre()
+	}
+	return done
 }
 
 func main() {
@@ -713,27 +891,25 @@ func main() {
 	names[crypto.AddressFromPreimage([]byte("fee_collector"))] = "fee collector"
 	names[crypto.AddressFromPreimage([]byte("storage_fee_collector"))] = "storage fee collector"
 	names[gnolang.DerivePkgCryptoAddr(pathE+"#vault")] = "att#vault"
+	names[gnolang.DerivePkgCryptoAddr("gno.land/r/verif/fx")] = "realm fx (forged MsgAddPackage)"
+	names[gnolang.DeriveStorageDepositCryptoAddr("gno.land/r/verif/fx")] = "fx storage-deposit"
 	for a := range names {
 		known = append(known, a)
 	}
-	sort.Slice(known, func(i, j int) bool { return string(known[i][:]) < string(known[j][:]) })
+	splitCore = []string{denomV, denomE, denomX}
+	for _, d := range []string{"ugnot", denomV, denomE, denomX} {
+		knownDenoms[d] = true
+	}
+	rvInit() // adds the generated packages' addresses to names, knownAll, splitAll, knownDenoms
+	byAddr := func(s []crypto.Address) {
+		sort.Slice(s, func(i, j int) bool { return string(s[i][:]) < string(s[j][:]) })
+	}
+	byAddr(known)
+	byAddr(knownAll)
+	menu = append(menu, menuExtra()...)
 
 	if probe {
-		all := make([]int, len(menu))
-		for i := range all {
-			all[i] = i
-		}
-		c := newChain()
-		c.BeginBlock()
-		prev := observe(c, true)
-		for _, oi := range all {
-			var f *finding
-			prev, _, f = step(c, false, prev, oi)
-			if f != nil {
-				fmt.Println("    FINDING", f.key, f.detail)
-			}
-		}
-		r.Finish("probe", false, map[string]any{"states": nStates.Load(), "transitions": nTx.Load(), "traces_validated_against_impl": nTx.Load()})
+		probeMain()
 	}
 
 	// quick: every history of <=2 txs, and every history of 3 txs whose first tx is one of the state-setting ops
@@ -744,17 +920,66 @@ func main() {
 	}
 	t0 := time.Now()
 	pool := make(chan *chainx.Chain, 64)
-	first := newChain()
+	first := newChain(false)
 	first.BeginBlock()
-	pool <- first
 	fmt.Printf("warm-up chain: %.1fs, menu %d\n", time.Since(t0).Seconds(), len(menu))
 	var created atomic.Int64
 	created.Store(1)
 
+	// (0) the three single-transaction families, each op from a snapshot of ONE chain (they run first: small, and the
+	// box may be too loaded for the history search below to finish): generated attacker programs handling realm
+	// values (own chain with the generated packages), forged identity fields, the origin-send denomination matrix.
+	var wg sync.WaitGroup
+	var famDone, famTotal atomic.Int64
+	fam := func(mk func() *chainx.Chain, prefixes []hist, ops []*opDef, rank int) {
+		famTotal.Add(int64(len(prefixes) * len(ops)))
+		wg.Add(1)
+		go func() {
+			defer wg.Done()
+			tc := time.Now()
+			c := mk()
+			tf := time.Now()
+			famDone.Add(int64(flat(c, prefixes, ops, rank)))
+			fmt.Printf("  family rank %d: chain %.1fs, %d ops x %d prefixes %.1fs\n", rank, tf.Sub(tc).Seconds(), len(ops), len(prefixes), time.Since(tf).Seconds())
+			if !isRV(c) {
+				pool <- c
+			}
+		}()
+	}
+	plain := func() *chainx.Chain {
+		created.Add(1)
+		c := newChain(false)
+		c.BeginBlock()
+		return c
+	}
+	withRV := func() *chainx.Chain {
+		c := newChain(true)
+		c.BeginBlock()
+		return c
+	}
+	rvops, fops, oops := rvOps(), forgeOps(), originOps(r.Thorough())
+	for _, fam := range [][]*opDef{rvops, fops, oops} {
+		for i, op := range fam {
+			op.ord = i
+		}
+	}
+	split := func(ops []*opDef, n int, f func(part []*opDef)) {
+		for i := 0; i < n; i++ {
+			f(ops[i*len(ops)/n : (i+1)*len(ops)/n])
+		}
+	}
+	split(rvops, 3, func(part []*opDef) { fam(withRV, []hist{{}}, part, 0) })
+	fam(func() *chainx.Chain { return first }, []hist{{}, mhist([]int{opIndex("bank.send B->C 200 ugnot (B's key becomes known)")})}, fops, 1)
+	minted := []hist{mhist([]int{opIndex("vv.Mint 1000 ->vv (realm holds its own denomination)")})}
+	split(oops, 4, func(part []*opDef) { fam(plain, minted, part, 2) })
+	wg.Wait()
+	fmt.Printf("generated attacker packages: %d of %d deployed\n", rvDeployedCount(), len(rvKinds))
+	fmt.Printf("single-tx families done at %.1fs: %d generated-program ops, %d forged-message ops x2 states, %d origin-send programs\n", time.Since(t0).Seconds(), len(rvops), len(fops), len(oops))
+
 	// (1) replay mode: fresh chain, one tx per block, real commits: every single op, and a fixed set of 3-tx stories
-	var rjobs [][]int
+	var rjobs []hist
 	for i := range menu {
-		rjobs = append(rjobs, []int{i})
+		rjobs = append(rjobs, mhist([]int{i}))
 	}
 	stories := [][]string{
 		{"vv.Mint 1000 ->B", "att.BurnDenom vv's from B", "vv.Burn 300 from B (issuer burns)"},
@@ -774,17 +999,17 @@ func main() {
 		for _, n := range s {
 			h = append(h, opIndex(n))
 		}
-		rjobs = append(rjobs, h)
+		rjobs = append(rjobs, mhist(h))
 	}
 	var rdone atomic.Int64
 	sem := make(chan struct{}, 4) // chain creation is memory-bandwidth bound
 	r.ParFor(len(rjobs), func(i int) {
 		sem <- struct{}{}
 		defer func() { <-sem }()
-		if at, f := replay(rjobs[i]); f != nil {
-			report(rjobs[i], at, f, "replay")
+		if at, f := replay(rjobs[i], false); f != nil {
+			report(rjobs[i], at, f, "replay", nil)
 		}
-		r.Distinct("replay" + fmt.Sprint(rjobs[i]))
+		r.Distinct("replay" + rjobs[i].String())
 		rdone.Add(1)
 	})
 
@@ -812,7 +1037,7 @@ func main() {
 		case c = <-pool:
 		default:
 			if created.Add(1) <= 7 {
-				c = newChain()
+				c = newChain(false)
 				c.BeginBlock()
 			} else {
 				c = <-pool
@@ -822,13 +1047,13 @@ func main() {
 		pop := c.Push()
 		defer pop()
 		prev := observe(c, false)
-		var h []int
+		var h hist
 		for _, oi := range prefixes[i].p {
 			var f *finding
-			prev, _, f = step(c, false, prev, oi)
-			h = append(h, oi)
+			prev, _, f = step(c, false, prev, &menu[oi])
+			h = append(h, &menu[oi])
 			if f != nil {
-				suspects.Store(fmt.Sprint(h), suspect{append([]int{}, h...), f.key + menu[oi].name})
+				addSuspect(h, f, false, 1000)
 				ddone.Add(1)
 				return
 			}
@@ -841,22 +1066,67 @@ func main() {
 	var sus []suspect
 	suspects.Range(func(_, v any) bool { sus = append(sus, v.(suspect)); return true })
 	sort.Slice(sus, func(i, j int) bool {
+		if sus[i].rank != sus[j].rank {
+			return sus[i].rank < sus[j].rank
+		}
 		if len(sus[i].h) != len(sus[j].h) {
 			return len(sus[i].h) < len(sus[j].h)
 		}
-		return fmt.Sprint(sus[i].h) < fmt.Sprint(sus[j].h)
+		if sus[i].ord != sus[j].ord {
+			return sus[i].ord < sus[j].ord
+		}
+		return sus[i].h.String() < sus[j].h.String()
 	})
+	// the shortest history of each distinct finding key is confirmed on a fresh chain with one tx per block and real
+	// commits; the families with many members per root cause confirm a bounded number and list the rest unconfirmed
 	seenKey := map[string]bool{}
+	members := map[string][]string{}
 	for _, s := range sus {
-		if seenKey[s.key] || len(seenKey) >= 12 { // the shortest history of each distinct finding
+		members[s.key] = append(members[s.key], s.h.String())
+	}
+	// Confirmation with real commits (one tx per block). Family findings (single-tx programs after a fixed prefix) are
+	// confirmed one after the other on ONE fresh chain per family; findings of the history search each get their own
+	// fresh chain (at most 12).
+	confirmChains := map[int]*chainx.Chain{}
+	confirmObs := map[int]obs{}
+	applied := map[string]bool{}
+	nReplayed := 0
+	for _, s := range sus {
+		if seenKey[s.key] {
 			continue
 		}
 		seenKey[s.key] = true
-		at, f := replay(s.h)
-		if f == nil {
-			r.HarnessError("finding of DFS (rollback) mode not reproduced with real commits: %s", hname(s.h))
+		if s.rank < 1000 {
+			c, ok := confirmChains[s.rank]
+			if !ok {
+				c = newChain(s.rv)
+				confirmChains[s.rank] = c
+				confirmObs[s.rank] = observe(c, true)
+			}
+			prev := confirmObs[s.rank]
+			pre, last := s.h[:len(s.h)-1], s.h[len(s.h)-1]
+			if pk := fmt.Sprint(s.rank, pre.String()); !applied[pk] {
+				applied[pk] = true
+				for _, op := range pre {
+					prev, _, _ = step(c, true, prev, op)
+				}
+			}
+			cur, _, f := step(c, true, prev, last)
+			confirmObs[s.rank] = cur
+			if f != nil {
+				report(s.h, len(s.h)-1, f, "snapshot mode, confirmed with real commits (one tx per block) on a fresh chain", members[s.key])
+				continue
+			}
+		} else if nReplayed >= 12 {
+			r.Violation(s.key, map[string]any{"history": s.h.String(), "all_failing_inputs_under_this_key": members[s.key], "found_by": "snapshot mode (not replayed: replay limit)"})
+			continue
 		}
-		report(s.h, at, f, "dfs, confirmed by replay with real commits")
+		nReplayed++
+		at, f := replay(s.h, s.rv)
+		if f == nil {
+			r.HarnessError("finding of snapshot (rollback) mode not reproduced with real commits: %s", s.h.String())
+		}
+		report(s.h, at, f, "snapshot mode, confirmed by replay with real commits", members[s.key])
 	}
 	nAttack := 0
 	for _, o := range menu {
@@ -866,16 +1136,67 @@ func main() {
 	}
 	r.Sample(map[string]any{"history": "vv.CallHook(banker-on-previous)", "meaning": "the victim realm calls out to attacker code; the attacker builds a banker on cur.Previous() to drain its caller"})
 	r.Sample(map[string]any{"history": "vv.Store 3 ; att.SendFrom(vv deposit addr) ; vv.Clear by C", "meaning": "the storage-deposit address may only be debited when the realm's storage is released"})
+	r.Sample(map[string]any{"generated_attacker_program": rvops[len(rvops)/3].name, "meaning": "transform:source-of-the-realm-value:use:entry:victim — e.g. a struct embedding the realm interface with Address() overridden, passed to NewBanker"})
+	r.Sample(map[string]any{"forged_message": fops[len(fops)/2].name})
+	r.Sample(map[string]any{"origin_send_program": oops[len(oops)/2].name})
 	r.Assumptions = []string{
-		"which realm's own code spends in an op (reasons R2/R4) is declared per menu entry together with the amount; every other decrease must be explained by the tx itself (signer: fee + named coins + deposit locked; deposit address: storage released)",
+		"which realm's own code spends in an op (reasons R2/R4) is declared per menu entry together with the amount; every other decrease must be explained by the tx itself (signer: fee + named coins + deposit locked; deposit address: storage released); in the generated attacker programs only the attacker package's own address may be debited by its code",
 		"DFS mode keeps one block open and rolls back with a cache-wrap snapshot; single ops (thorough), three (thorough: five) 3-tx stories and every finding are replayed on fresh chains with one tx per block and real commits",
 		"balances are re-derived from raw store bytes (account objects + split-tier balance keys) for every address in the store",
+		"the three single-transaction families (generated attacker programs, forged messages, origin-send matrix) are explored at depth 1 from fixed base states; a representative subset of the latter two is also part of the history menu",
 	}
 	depth := "<=2 txs, and of 3 txs after each of 3 state-setting first txs (mint, keep a banker, store),"
 	if r.Thorough() {
 		depth = "<=3 txs"
 	}
-	r.Finish(fmt.Sprintf("every history of %s over a %d-op menu (%d of them attempts to move, mint or burn somebody else's coins) on the real app; after every tx each balance decrease of any address in any denom must have one of the four permitted reasons; distinct = DFS subtrees + replayed histories", depth, len(menu), nAttack),
-		rdone.Load() == int64(len(rjobs)) && ddone.Load() == int64(len(prefixes)),
-		map[string]any{"states": nStates.Load(), "transitions": nTx.Load(), "traces_validated_against_impl": nTx.Load(), "menu": len(menu), "attack_ops": nAttack, "replayed": len(rjobs)})
+	r.Finish(fmt.Sprintf("every history of %s over a %d-op menu (%d of them attempts to move, mint or burn somebody else's coins) on the real app, plus three exhaustive single-transaction families: %d generated attacker programs handling realm values (transform x source x use x entry x victim), %d hand-built messages with forged identity fields x 2 states, %d multi-denomination origin-send programs; after every tx each balance decrease of any address in any denom must have one of the four permitted reasons; distinct = DFS subtrees + replayed histories + family members", depth, len(menu), nAttack, len(rvops), len(fops), len(oops)),
+		rdone.Load() == int64(len(rjobs)) && ddone.Load() == int64(len(prefixes)) && famDone.Load() == famTotal.Load(),
+		map[string]any{"states": nStates.Load(), "transitions": nTx.Load(), "traces_validated_against_impl": nTx.Load(), "menu": len(menu), "attack_ops": nAttack, "replayed": len(rjobs),
+			"generated_attacker_programs": len(rvops), "generated_packages": rvDeployReport(), "forged_message_ops": len(fops), "origin_send_programs": len(oops)})
+}
+
+func probeMain() {
+	c := newChain(false)
+	c.BeginBlock()
+	prev := observe(c, true)
+	sel := os.Getenv("C08_PROBE")
+	if sel == "menu" || sel == "1" {
+		for oi := range menu {
+			var f *finding
+			prev, _, f = step(c, false, prev, &menu[oi])
+			if f != nil {
+				fmt.Println("    FINDING", f.key, f.detail)
+			}
+		}
+	}
+	run1 := func(c *chainx.Chain, pre hist, ops []*opDef) {
+		pop0 := c.Push()
+		prev := observe(c, false)
+		for _, op := range pre {
+			prev, _, _ = step(c, false, prev, op)
+		}
+		for _, op := range ops {
+			pop := c.Push()
+			_, _, f := step(c, false, prev, op)
+			if f != nil {
+				fmt.Println("    FINDING", f.key+" @ "+op.id(), f.detail["all_decreases"])
+			}
+			pop()
+		}
+		pop0()
+	}
+	if sel == "forge" || sel == "1" {
+		run1(c, nil, forgeOps())
+		run1(c, mhist([]int{opIndex("bank.send B->C 200 ugnot (B's key becomes known)")}), forgeOps())
+	}
+	if sel == "origin" || sel == "1" {
+		run1(c, mhist([]int{opIndex("vv.Mint 1000 ->vv (realm holds its own denomination)")}), originOps(false))
+	}
+	if sel == "rv" || sel == "1" {
+		rc := newChain(true)
+		fmt.Println("generated packages:", rvDeployReport())
+		rc.BeginBlock()
+		run1(rc, nil, rvOps())
+	}
+	r.Finish("probe", false, map[string]any{"states": nStates.Load(), "transitions": nTx.Load(), "traces_validated_against_impl": nTx.Load()})
 }
